@@ -153,6 +153,9 @@ def _one(args):
     import signal
 
     def _timeout(signum, frame):
+        # the rule that is running fails closed; the rules after it (run_rules goes on) get a short budget each, so that one
+        # variant cannot occupy a worker for good
+        signal.alarm(20)
         raise AnalysisError(prop, 'engine', 'analysis time limit exceeded on this variant (term blow-up); fail closed')
     try:
         signal.signal(signal.SIGALRM, _timeout)
